@@ -967,7 +967,7 @@ func (t *tr) ifStmt(x *ast.IfStmt, rest []ast.Stmt, ind string) string {
 }
 
 // forStmt supports exactly `for k := T(0); k < n; k++ { v = <pure expr not mentioning k> }`
-// (a counted repetition), emitted as Nat.repeat-style iterate.
+// (a counted repetition), emitted as Nat.repeat.
 func (t *tr) forStmt(x *ast.ForStmt, rest []ast.Stmt, ind string) string {
 	init, ok := x.Init.(*ast.AssignStmt)
 	if !ok || len(init.Lhs) != 1 || init.Tok != token.DEFINE {
@@ -1019,7 +1019,7 @@ func (t *tr) forStmt(x *ast.ForStmt, rest []ast.Stmt, ind string) string {
 	if !isUnsigned(kt) {
 		b = "(Int.toNat " + paren(bound) + ")"
 	}
-	out := ind + "let " + lv + " : " + leanType(vt) + " := Nat.iterate (fun " + lv + " => " + body + ") " + paren(b) + " " + lv + "\n"
+	out := ind + "let " + lv + " : " + leanType(vt) + " := Nat.repeat (fun " + lv + " => " + body + ") " + paren(b) + " " + lv + "\n"
 	return out + t.stmts(rest, ind)
 }
 
